@@ -136,6 +136,10 @@ func (w *KafkaWriter) writingLoop() {
 	for {
 		select {
 		case <-w.batchingLoopDoneCh:
+			// the batching loop is done, nothing can be pushed anymore: flush what is still buffered
+			for w.messageBuffer.Length() > 0 {
+				w.writeBatch(w.messageBuffer.PopMultiple(100))
+			}
 			w.runningWorkers.Done()
 			return
 		default:
@@ -143,16 +147,19 @@ func (w *KafkaWriter) writingLoop() {
 			if len(messagesToSend) == 0 {
 				continue
 			}
-
-			metric := w.newMetric(KAFKAWRITER)
-			metric.AddValue("messages_sent", len(messagesToSend))
-			metric.AddValue("messages_failed", 0)
-
-			w.writeFunction(messagesToSend, &metric)
-
-			monitoring.Send(metric)
+			w.writeBatch(messagesToSend)
 		}
 	}
+}
+
+func (w *KafkaWriter) writeBatch(messagesToSend []kafka.Message) {
+	metric := w.newMetric(KAFKAWRITER)
+	metric.AddValue("messages_sent", len(messagesToSend))
+	metric.AddValue("messages_failed", 0)
+
+	w.writeFunction(messagesToSend, &metric)
+
+	monitoring.Send(metric)
 }
 
 func (w *KafkaWriter) batchingLoop() {
